@@ -23,9 +23,13 @@ K7 == {<<>>, <<34>>, <<17, 34>>, <<51, 34>>, <<17, 50>>, <<19, 34>>, <<17, 85>>}
 \*   0x1125 [5,2,1,1,16]  0x1152 [2,5,1,1,16]  0x1123 [3,2,1,1,16]  0x2122 [2,2,1,2,16]  0x11 [1,1,16]  0x02 [2,0,16]
 \*   0x111122 [2,2,1,1,1,1,16]  0x221122 [2,2,1,1,2,2,16]  0x1222 [2,2,2,1,16]
 AbsentProbes == {<<17, 37>>, <<17, 82>>, <<17, 35>>, <<33, 34>>, <<17>>, <<2>>, <<17, 17, 34>>, <<34, 17, 34>>, <<18, 34>>} \ Keys
-Inv_C01_Probes == \A k \in AbsentProbes : (IF root = Absent THEN 0 ELSE TryGet(root, KeyBytesToHex(k)).v) = 0
+ProbesOk(r, m) == \A k \in AbsentProbes : ReadOf(r, k) = 0
+Inv_C01_Probes == ForAllInst(ProbesOk)
 \* the keys the harness reads in its final audit: the universe and the never-written probes
 ASSUME PrintT("@@KEYS " \o ToJson(Keys \cup AbsentProbes))
+AllActs == {"Update", "Delete", "Get", "RootHash", "GetDirtyHashes", "Commit", "Recreate", "RecreateKeep", "RecreateEmpty", "Switch"}
+\* the calls that matter for the independence of live instances
+InstActs == {"Update", "Commit", "RecreateKeep", "Switch"}
 \* keys that take every value (the others only the smallest): bounds the overwrite dimension
 RichAll == Keys
 Rich1 == {<<17, 34>>}
@@ -33,11 +37,11 @@ GenNext  == Len(hist) < Depth /\ Next
 GenSpec  == Init /\ [][GenNext]_vars
 \* every exported behaviour ends with an "Audit" record: what the harness must find when it inspects the trie
 \* after the last step (number of dirty hashes = nodes the next Commit writes, number of nodes of the trie)
-AuditRec(r, ml, m, rs) ==
+AuditRec(r, ml, m, rs, pk) ==
     [a |-> "Audit", in |-> [x |-> 0],
      out |-> [dirty |-> Cardinality(DirtyHashesOf(r, ml)), nodes |-> NodeCount(Expand(r))],
-     st |-> [m |-> MapPairs(m), nroots |-> Cardinality(rs)]]
-Export == PrintT("@@B " \o ToJson(Append(hist', AuditRec(root', maxLevel', map', roots'))))
+     st |-> [m |-> MapPairs(m), nroots |-> Cardinality(rs), parked |-> [i \in 1..Len(pk) |-> MapPairs(pk[i].map)]]]
+Export == PrintT("@@B " \o ToJson(Append(hist', AuditRec(root', maxLevel', map', roots', parked'))))
 EmitEdge == Export
 EmitFull == (Len(hist') = Depth) => Export
 ====
